@@ -79,6 +79,33 @@ def showSend : SendRes → String
 def bits? (s : String) : Option (List Bool) :=
   s.toList.mapM (fun c => if c == '1' then some true else if c == '0' then some false else none)
 
+/-- one token of a `denmsnap` line after the position: `rep` | `lat:v` | `lon:v` | `ell:a:b:c` | `alt:v:c` (in place) |
+`nell:a:b:c` | `nalt:v:c` (the caller binds the key to a new record) -/
+def snapTok? (t : String) : Option (Option CallerOp) :=
+  if t == "rep" then some none else
+  match t.splitOn ":" with
+  | ["lat", v] => (int? v).map (fun v => some (.setLat v))
+  | ["lon", v] => (int? v).map (fun v => some (.setLon v))
+  | ["ell", a, b, c] => match int? a, int? b, int? c with
+    | some a, some b, some c => some (some (.ellInPlace ⟨a, b, c⟩)) | _, _, _ => none
+  | ["nell", a, b, c] => match int? a, int? b, int? c with
+    | some a, some b, some c => some (some (.ellRebind ⟨a, b, c⟩)) | _, _, _ => none
+  | ["alt", v, c] => match int? v, nat? c with
+    | some v, some c => some (some (.altInPlace ⟨v, c⟩)) | _, _ => none
+  | ["nalt", v, c] => match int? v, nat? c with
+    | some v, some c => some (some (.altRebind ⟨v, c⟩)) | _, _ => none
+  | _ => none
+
+/-- tokens -> the caller's operations before each repetition (operations after the last `rep` are dropped) -/
+def snapHist (ts : List (Option CallerOp)) : List (List CallerOp) :=
+  (ts.foldl (fun (acc : List (List CallerOp) × List CallerOp) t =>
+    match t with
+    | none => (acc.1 ++ [acc.2], [])
+    | some op => (acc.1, acc.2 ++ [op])) ([], [])).1
+
+def showReqPos (p : ReqPos) : String :=
+  s!"{p.lat} {p.lon} {p.ell.major} {p.ell.minor} {p.ell.orient} {p.alt.value} {p.alt.conf}"
+
 /-- msg kind <report>            → lat lon major minor orient alt altconf heading hconf speed   (stateless builders)
     reset                        → ok        (fresh transmission management / service)
     camrep <report>              → ok        (location_service_callback on the CAM transmission management)
@@ -92,7 +119,8 @@ def bits? (s : String) : Option (List Bool) :=
     uper lo:hi:v …               → value bits   (the encoder's accumulator after the constrained INTEGER fields)
     ph dlat:dlon:dt …            → n dlat,dlon,dalt,dt …   (`_get_path_history` on the stored entries, newest first)
     phtick nowMs pos(0/1) dlat:dlon:dt … → sent <-|path> hist=n | skipped hist=n   (one generation attempt, same state as reset)
-    vamsend none|idle|standalone|leader|passive cluster breakup join leaveNotify ldm → silent | sent info op fed | fail -/
+    vamsend none|idle|standalone|leader|passive cluster breakup join leaveNotify ldm → silent | sent info op fed | fail
+    denmsnap lat lon major minor orient alt altConfIdx tok… → the position each repetition (`rep`) encodes, ` | `-separated -/
 def mapStep (s : Drv) (t : List String) : Drv × String :=
   match t with
   | "msg" :: kind :: rest =>
@@ -180,6 +208,11 @@ def mapStep (s : Drv) (t : List String) : Drv × String :=
       | some c => (s, showSend (vamSend VAM_LDM_SNAPSHOT_DEEP VAM_LDM_FEED_GUARDED CHOICE_DEEPCOPYABLE c ldm))
       | none => (s, "bad-op")
     | _, _, _, _, _ => (s, "bad-op")
+  | "denmsnap" :: la :: lo :: a :: b :: c :: v :: cf :: toks =>
+    match int? la, int? lo, int? a, int? b, int? c, int? v, nat? cf, toks.mapM snapTok? with
+    | some la, some lo, some a, some b, some c, some v, some cf, some ts =>
+      (s, " | ".intercalate ((repetitions DENM_REQ_SNAPSHOT ⟨la, lo, ⟨a, b, c⟩, ⟨v, cf⟩⟩ (snapHist ts)).map showReqPos))
+    | _, _, _, _, _, _, _, _ => (s, "bad-op")
   | "uper" :: fields =>
     let parsed := fields.mapM (fun t => match t.splitOn ":" with
       | [lo, hi, v] => (match int? lo, int? hi, int? v with
